@@ -155,6 +155,10 @@ def renderBSeg (s : List Char) : BSeg → List Char
 
 def stepSites (w : List String) : Option String :=
   match w with
+  | ["ns", h] =>
+    match unhexS h with
+    | some content => some (showO (fun (_ : List NsPiece) => "nopanic") (nsStrict content))
+    | none => some "bad-op"
   | ["rw", spec] =>
     -- rows separated by ';': "<r>,<cell>,…", cell = "<col|-|B>:<v|n>"
     let toks : Option (List Tok) := if spec = "-" then some [] else
